@@ -94,6 +94,10 @@ def impl_violation(op, line):
     rpc = op.split(" ")[1] if op.startswith("req ") else "?"
     if cls in ("nilnil", "panic"):
         return "%s: %s" % (rpc, SPEC_TEXT[cls])
+    if cls == "hang":
+        return "%s never returned (it keeps the system lock, so the server can no longer shut down)" % rpc
+    if kv.get("store") == "corrupt":
+        return "%s damaged a stored treasure the request did not address" % rpc
     if kv.get("lock") == "1":
         return "%s left the safeops system lock held" % rpc
     if kv.get("vig") == "1":
@@ -127,6 +131,28 @@ def shape_tag(op):
     return "valid"
 
 
+def engine_class(line):
+    """short tag of what went wrong, for findings below the validation prefix"""
+    cls, kv = fields(line)
+    if cls in ("nilnil", "panic", "hang"):
+        return cls
+    if kv.get("store") == "corrupt":
+        return "corrupt"
+    if cls.startswith("err ") and kv.get("store") == "changed":
+        return "errchanged"
+    if kv.get("lock") == "1":
+        return "lock"
+    if kv.get("vig") == "1":
+        return "vigil"
+    if kv.get("close") == "hang":
+        return "closehang"
+    return "other"
+
+
+def label_of(op):
+    return op.rsplit(" | m=", 1)[1] if " | m=" in op else ""
+
+
 def spec_violated(rep):
     for op, line in zip(rep["ops"], rep["impl"]):
         why = impl_violation(op, line)
@@ -155,18 +181,35 @@ def run(ctx):
                 if not compatible(op, a, b, pk):
                     still.append(i)
             c.mismatch = still
-            # independent Spec oracle over every implementation reply
+            # independent Spec oracle over every implementation reply.  A violation on a line the model
+            # flags too is a prefix-level finding keyed by (rpc, shape); otherwise it happened below the
+            # prefix (the model's engine parameter) and is keyed by (rpc, what went wrong) + the mutated field
+            engine_known = set()
             for i, line in enumerate(c.impl):
                 op = c.ops[i] if i < len(c.ops) else ""
                 why = impl_violation(op, line)
-                if why:
-                    rpc = op.split(" ")[1] if op.startswith("req ") else "server"
-                    fid = "C26-%s-%s" % (rpc, shape_tag(op))
-                    if fid not in impl_findings:
-                        cs = K.case_of(c, i)
-                        rep = {"ops": [c.ops[cs[0]], op], "impl": [c.impl[cs[0]], line], "model": [c.model[cs[0]] if cs[0] < len(c.model) else "", c.model[i] if i < len(c.model) else ""],
-                               "correspondence": "C26", "finding": fid, "what_fails": why}
-                        impl_findings[fid] = rep
+                if not why:
+                    continue
+                rpc = op.split(" ")[1] if op.startswith("req ") else "server"
+                if i < len(c.flags) and c.flags[i]:
+                    fid = c.flags[i][0]
+                else:
+                    fid = "C26-%s-engine-%s" % (rpc, engine_class(line))
+                    ent = known.get(fid)
+                    rx = ((ent or {}).get("signature") or {}).get("label_regex")
+                    if ent is not None and rx and re.search(rx, label_of(op)):
+                        engine_known.add(i)
+                    elif ent is not None:
+                        fid += "-" + (re.sub(r"\W+", "_", label_of(op)) or "unlabelled")   # same rpc, different input: new
+                if fid not in impl_findings:
+                    cs = K.case_of(c, i)
+                    rep = {"ops": [c.ops[cs[0]], op], "impl": [c.impl[cs[0]], line],
+                           "model": [c.model[cs[0]] if cs[0] < len(c.model) else "", c.model[i] if i < len(c.model) else ""],
+                           "correspondence": "C26", "finding": fid, "what_fails": why}
+                    impl_findings[fid] = rep
+            # a recorded engine-level finding explains its own line: the model's assumption "the engine answers" is
+            # what fails there, not the correspondence
+            c.mismatch = [i for i in c.mismatch if i not in engine_known]
         corrs.append(("C26", args, c))
     else:
         ctx.violation("harness does not build against /repo", {"correspondence": "C26", "log": getattr(ctx, "hx_log", "")[-2000:]},
